@@ -494,6 +494,10 @@ func classifyErr(fi *FactInfo, b *ssa.BasicBlock, v ssa.Value, depth int) errKin
 		// boxing a concrete value: non-nil interface
 		return errNonNil
 	case *ssa.Call:
+		// store.entityNotFoundF(id): the store's configured not-found error constructor
+		if fld, _ := loadedField(x.Call.Value); fld != nil && fld.Name() == "entityNotFoundF" {
+			return errNonNil
+		}
 		if f, _ := calleeOf(x.Common()); f != nil {
 			if isErrorCtor(f) {
 				return errNonNil
